@@ -232,6 +232,12 @@ macro_rules! emit_h {
             }
             g.output.push(0xAA);
             g.output.push(0x55);
+            let op = OpcodeKind::$op;
+            // PUT-family: only emitted when the guard allows it (a memoizable object on top, index representable)
+            g.state.stack.push(crate::stack::StackObject::None);
+            if ref_index(op) == I_PUT || ref_index(op) == I_BINPUT || ref_index(op) == I_LONG_BINPUT {
+                kani::assume(g.can_emit(op));
+            }
             let mut data: [u8; $dlen] = kani::any();
             let lead: &[u8] = &$lead;
             crate::vk_unroll!(i in [0, 1, 2, 3] {
@@ -245,7 +251,6 @@ macro_rules! emit_h {
             kani::assume(len <= $dlen && len >= lead.len());
             let mut u = Unstructured::new(&data[..len]);
             let mut src = GenerationSource::Arbitrary(&mut u);
-            let op = OpcodeKind::$op;
             let r = g.emit_and_process(op, &mut src);
             assert!(r.is_ok(), "emission returns Ok");
             check_emission(&g, p, ref_index(op), $exact, m, $mutk == 9, $maxline);
